@@ -4,6 +4,7 @@ package main
 
 import (
 	"fmt"
+	"github.com/theory/sqljson/path/exec"
 	"sort"
 	"strconv"
 	"strings"
@@ -26,8 +27,11 @@ func c16Values(thorough bool) []string {
 	}
 	ints := []string{"0", "1", "-1", "2147483647", "2147483648", "-2147483648", "-2147483649", "9007199254740993", "9223372036854775807", "-9223372036854775808"}
 	for _, i := range ints {
-		out = append(out, "i:"+i)
+		// the exact integer spelling in all three carriers (FormatFloat above pads the shortest digits of a double with
+		// zeros, so 2^63 would otherwise only appear as ...776000): json.Number and string take the integer route
+		out = append(out, "i:"+i, "n:"+i, "s:"+i)
 	}
+	out = append(out, "i:-9223372036854775807", "n:-9223372036854775807", "n:9223372036854775806", "n:-9223372036854775808.5", "n:9223372036854775807.5")
 	out = append(out, "n:1E2", "n:1e2", "n:1.50", "n:2.5e0", "n:9223372036854775808", "n:-9223372036854775809", "n:1e400", "n:-1e400", "n:1e-400", "n:0.0", "n:-0",
 		"n:2147483647.5", "n:2147483647.4999999999999999999", "n:0.5000000000000000000000001", "n:1.5", "n:2.5", "n:12345678901234567890")
 	strs := []string{"", "abc", " 1", "1 ", "+1", "-1", "0x10", "1e3", "1E3", "1_000", ".5", "5.", "1.5e2", "Infinity", "inf", "-inf", "nan", "NaN", "+Inf",
@@ -105,6 +109,8 @@ func checkC16(c Case) *Failure {
 		return c16KeyValue(c)
 	case "keyvalue-context":
 		return c16KeyValueContext(c)
+	case "keyvalue-asked-elsewhere":
+		return c16KeyValueElsewhere(c)
 	}
 	f, _ := compareQueryWithRef("C16", c, nil)
 	return f
@@ -227,6 +233,69 @@ func c16KeyValueContext(c Case) *Failure {
 	for _, it := range b.Items {
 		if !have[canon(it)] {
 			return &Failure{Sig: "C16/keyvalue/ids-depend-on-earlier-evaluation", Expected: "a triple of " + canon(a.Items), Observed: canon(it) + " from " + c.Path}
+		}
+	}
+	return nil
+}
+
+// c16KeyValueElsewhere: the id an object reports does not depend on where in the path the object is asked:
+// the root's id asked inside a filter over generated triples, inside a filter over a variable, and inside a
+// subscript of a variable equals the id the plain path reports (which is also stable over executions).
+func c16KeyValueElsewhere(c Case) *Failure {
+	doc := mustDoc(c.Doc, "float64")
+	obj, ok := doc.(map[string]any)
+	if !ok || len(obj) == 0 {
+		return nil
+	}
+	q := func(text string, vars exec.Vars) Out {
+		p, err, pan := parseCached(text)
+		if err != nil || pan != "" {
+			panic("harness: " + text)
+		}
+		return implQuery(p, doc, runCfg{vars: vars, silent: c.Silent})
+	}
+	top := q("$.keyvalue().id", nil)
+	if top.Class != "ok" || len(top.Items) != len(obj) {
+		return &Failure{Sig: "C16/keyvalue/error", Expected: fmt.Sprint(len(obj), " ids"), Observed: top.String()}
+	}
+	id := top.Items[0]
+	want := canon([]any{id})
+	for _, t := range []struct {
+		path string
+		vars exec.Vars
+		n    int
+	}{
+		{"$.keyvalue() ? (@.id == $.keyvalue().id).id", nil, len(obj)},
+		{"strict $.keyvalue() ? (@.id == $.keyvalue().id).id", nil, len(obj)},
+		{"$v ? (@ == $.keyvalue().id)", exec.Vars{"v": id}, 1},
+		{"$v.n ? (@ == $.keyvalue().id)", exec.Vars{"v": map[string]any{"n": id}}, 1},
+		{"$v[*] ? (@.x == $.keyvalue().id).x", exec.Vars{"v": []any{map[string]any{"x": id}}}, 1},
+		{"$.keyvalue().value ? ($.keyvalue().id == $v)", exec.Vars{"v": id}, -1},
+		{"$v.keyvalue() ? ($.keyvalue().id == $w).key", exec.Vars{"v": map[string]any{"k": true}, "w": id}, -2},
+	} {
+		o := q(t.path, t.vars)
+		if o.Class != "ok" {
+			return &Failure{Sig: "C16/keyvalue/id-depends-on-where-asked", Expected: "ok", Observed: o.String() + " from " + t.path}
+		}
+		switch {
+		case t.n == -1: // one item per member value (lax unwrapping may add more): only emptiness is decided here
+			allEmpty := true // the lax filter unwraps one array level: only empty arrays contribute nothing
+			for _, v := range obj {
+				if a, isArr := v.([]any); !isArr || len(a) > 0 {
+					allEmpty = false
+				}
+			}
+			if len(o.Items) == 0 && !allEmpty {
+				return &Failure{Sig: "C16/keyvalue/id-depends-on-where-asked", Expected: "every member value (root id " + canon(id) + ")", Observed: "[] from " + t.path}
+			}
+		case t.n == -2:
+			if canon(o.Items) != canon([]any{"k"}) {
+				return &Failure{Sig: "C16/keyvalue/id-depends-on-where-asked", Expected: `["k"]`, Observed: canon(o.Items) + " from " + t.path}
+			}
+		default:
+			if len(o.Items) != t.n || canon(o.Items[:1]) != want {
+				return &Failure{Sig: "C16/keyvalue/id-depends-on-where-asked", Expected: fmt.Sprint(t.n, " x ", canon(id)), Observed: canon(o.Items) + " from " + t.path}
+			}
 		}
 	}
 	return nil
@@ -375,6 +444,17 @@ func runC16(r *Run) {
 			c := Case{Rule: "keyvalue", Path: path, Doc: kvdocs[i].text}
 			r.evals.Add(1)
 			if f := c16KeyValue(c); f != nil {
+				r.Fail(c, f)
+			}
+		}
+	})
+	// ids do not depend on where in the path the object is asked
+	r.ParFor(len(kvdocs), func(i int) {
+		for _, silent := range []bool{false, true} {
+			c := Case{Rule: "keyvalue-asked-elsewhere", Path: "$.keyvalue().id", Doc: kvdocs[i].text, Silent: silent}
+			r.evals.Add(1)
+			r.traces.Add(8)
+			if f := c16KeyValueElsewhere(c); f != nil {
 				r.Fail(c, f)
 			}
 		}
